@@ -1328,6 +1328,7 @@ def explore(
                         pass
         stats["queries"] += c.n_queries
         stats["solver_s"] += c.t_solver
+        stats["decisions"] = stats.get("decisions", 0) + len(c.trace)
         tr = c.trace
         while tr and not tr[-1][1]:
             tr.pop()
